@@ -22,7 +22,7 @@ PROPS = {
     "C01": {
         "pf": True,
         "n": {"quick": 220, "thorough": 12000},
-        "cone": ["Bytes", "BytesLemmas", "Regex", "Generated", "Channel", "Session", "SessionLemmas", "Replay", "DecideLang", "GeneratedSkel", "ChannelSrc", "InteractiveSrcDefs"],
+        "cone": ["Bytes", "BytesLemmas", "Regex", "Generated", "Channel", "Session", "SessionLemmas", "Replay", "DecideLang", "GeneratedSkel", "WindowSrc", "SendInputSrc", "InteractiveSrcDefs", "PlatformTypes"],
         "rx": True,
         "kernel_sample": {"quick": 6, "thorough": 20}, "kernel_maxlen": 2500,
         "rule": "generic.Driver SendCommands / SendCommand over the simulated transport and a CLI echo device: prompts drawn from the default "
@@ -46,7 +46,7 @@ PROPS = {
     "C02": {
         "rx": True,
         "n": {"quick": 2500, "thorough": 150000},
-        "cone": ["Bytes", "Regex", "Generated", "Netconf", "NetconfLemmas", "NcSession", "NcSessionLemmas", "NcSegLemmas"],
+        "cone": ["Bytes", "Regex", "Generated", "Netconf", "NetconfLemmas", "NcSession", "NcSessionLemmas", "NcSegLemmas", "BytesLemmas", "Channel", "PlatformTypes"],
         "rule": "NetconfResponse.Record on raw bytes under recover(): well-formed stream = generated payloads (multi-byte UTF-8, '#', digits, "
                 "LF, ']]>' and rpc-error variants at chunk edges) x random partitions (incl. 1-byte chunks) x surrounding whitespace; malformed "
                 "stream = truncations, size mutations (negative/alpha/oversize/empty), dropped terminator, junk at marker positions, over-long "
@@ -66,7 +66,7 @@ PROPS = {
     },
     "C15": {
         "n": {"quick": 250, "thorough": 4000},
-        "cone": ["Telnet", "TelnetLemmas", "DecideLang", "GeneratedSkel", "Decide"],
+        "cone": ["Telnet", "TelnetLemmas", "DecideLang", "GeneratedSkel", "DecideTel", "Bytes", "Generated", "PlatformTypes", "Regex"],
         "rule": "real transport.Telnet against a loopback TCP server: openings drawn from the RFC 854 token grammar (option negotiations with all "
                 "four verbs x option codes incl. SGA, two-byte commands NOP/GA/..., escaped IAC, banner data) x random TCP segmentations; compared: "
                 "bytes the server received, bytes returned by the first reads; non-trivial = opening has a negotiation and data A quarter of the cases first open a connection that ends inside a telnet command on the SAME transport object, then the opening under test on a new connection.",
@@ -78,7 +78,7 @@ PROPS = {
     },
     "C19": {
         "n": {"quick": 300, "thorough": 8000},
-        "cone": ["Bytes", "Generated", "Options", "OptionsRun", "OptionsLemmas", "DecideLang", "GeneratedSkel", "DecideLoops", "OptionsSrc", "OptionsSrcOk"],
+        "cone": ["Bytes", "Generated", "Options", "OptionsRun", "OptionsLemmas", "DecideLang", "GeneratedSkel", "DecideLemmas", "OptionsSrc", "OptionsSrcOk", "PlatformTypes", "Regex"],
         "diagnose": "From Scrapli Require Import Bytes OptionsSrc.\nFrom Coq Require Import String List.\nEval vm_compute in failing_options.\n",
         "rule": "random subsets + permutations + duplicates of all 45 option constructors with valid and invalid values through generic / network / "
                 "NETCONF NewDriver and through platform.NewPlatform with a generated YAML definition carrying an options block (every option name "
@@ -114,7 +114,7 @@ PROPS = {
     },
     "C03": {
         "n": {"quick": 250, "thorough": 6000},
-        "cone": ["Bytes", "BytesLemmas", "Regex", "Generated", "Netconf", "NetconfLemmas", "NcSession", "NcSessionLemmas", "NcSegLemmas", "NcExtraLemmas", "DecideLang", "GeneratedSkel", "NetconfSrc"],
+        "cone": ["Bytes", "BytesLemmas", "Regex", "Generated", "Netconf", "NetconfLemmas", "NcSession", "NcSessionLemmas", "NcSegLemmas", "NcExtraLemmas", "DecideLang", "GeneratedSkel", "SerializeSrc", "Channel", "PlatformTypes"],
         "rx": True,
         "rule": "netconf.Driver over the simulated transport against a NETCONF server model whose request parser is a strict RFC 6242 / "
                 "end-of-message decoder: sessions of 1-12 requests over all operations (get, get-config, edit-config, copy/delete-config, "
@@ -134,7 +134,7 @@ PROPS = {
     "C04": {
         "pf": True,
         "n": {"quick": 250, "thorough": 8000},
-        "cone": ["Bytes", "BytesLemmas", "Regex", "Generated", "Channel", "Network", "NetworkAbs", "NetworkLemmas", "NetworkTwins", "NetworkHistory", "NetworkHistoryLemmas", "Replay", "DecideLang", "GeneratedSkel", "Decide", "DecideLoops", "NetworkSrc"],
+        "cone": ["Bytes", "BytesLemmas", "Regex", "Generated", "Channel", "Network", "NetworkAbs", "NetworkLemmas", "NetworkTwins", "NetworkHistory", "NetworkHistoryLemmas", "Replay", "DecideLang", "GeneratedSkel", "DecideLemmas", "DecidePA", "DecideLemmas", "NetworkSrc", "PlatformTypes"],
         "rx": True,
         "rule": "network.Driver over the simulated transport against a privilege-tree device: random rooted labelled trees of 1-6 levels (with and "
                 "without authenticated edges, with/without secondary secret), every kind of start mode / default level, histories of 1-6 operations "
@@ -158,7 +158,7 @@ PROPS = {
         "pf": True,
         "n": {"quick": 220, "thorough": 6000},
         "compare": "member",
-        "cone": ["Bytes", "Regex", "Generated", "Channel", "Network", "Replay", "SessionLemmas", "Netconf", "NcSession", "NcSessionLemmas", "NcSegLemmas", "NcExtraLemmas", "DecideLang", "GeneratedSkel", "Decide", "InteractiveSrcDefs", "ChannelSrc"],
+        "cone": ["Bytes", "Regex", "Generated", "Channel", "Network", "Replay", "SessionLemmas", "Netconf", "NcSession", "NcSessionLemmas", "NcSegLemmas", "NcExtraLemmas", "DecideLang", "GeneratedSkel", "DecideGT", "InteractiveSrcDefs", "SendInputSrc", "BytesLemmas", "ChanTrace", "ChanTraceLemmas", "PlatformTypes", "Session"],
         "rx": True,
         "rule": "CLI sessions (generic SendCommand / GetPrompt / SendInteractive, network SendCommand with an implicit privilege change, AcquirePriv) "
                 "with the device going silent after byte k of the exchange: k from a dry run of the same case, every k of one small exchange "
@@ -179,7 +179,7 @@ PROPS = {
         "pf": True,
         "n": {"quick": 220, "thorough": 6000},
         "compare": "member",
-        "cone": ["Bytes", "Regex", "Generated", "Channel", "Network", "Replay", "SessionLemmas", "Netconf", "NcSession", "NcSessionLemmas", "NcSegLemmas", "NcExtraLemmas", "DecideLang", "GeneratedSkel", "InteractiveSrcDefs", "ChannelSrc"],
+        "cone": ["Bytes", "Regex", "Generated", "Channel", "Network", "Replay", "SessionLemmas", "Netconf", "NcSession", "NcSessionLemmas", "NcSegLemmas", "NcExtraLemmas", "DecideLang", "GeneratedSkel", "InteractiveSrcDefs", "SendInputSrc", "BytesLemmas", "ChanTrace", "ChanTraceLemmas", "ChannelLemmas", "PlatformTypes", "Session"],
         "rx": True,
         "rule": "the same CLI sessions with the transport reporting end-of-stream / a persistent read error after byte k, or failing a write; the "
                 "model prints every legal outcome of the race between the loss and the operation's consumption of already-queued chunks (the "
@@ -231,7 +231,7 @@ PROPS = {
     },
     "C08": {
         "n": {"quick": 120, "thorough": 5000},
-        "cone": ["Bytes", "BytesLemmas", "Regex", "Generated", "Netconf", "NetconfLemmas", "NcSession", "NcSessionLemmas", "NcSegLemmas", "NcExtraLemmas"],
+        "cone": ["Bytes", "BytesLemmas", "Regex", "Generated", "Netconf", "NetconfLemmas", "NcSession", "NcSessionLemmas", "NcSegLemmas", "NcExtraLemmas", "Channel", "PlatformTypes"],
         "rx": True,
         "rule": NC_RULE + " Histories of 1-25 RPCs with 60 ms timeouts and late replies; non-trivial = more than one request.",
         "level_text": "C08_reply_never_lost / _message_any_split: for any cut of a reply into reads (no boundary making a proper prefix look complete) the call carrying its message-id returns it, other ids' entries untouched. Theorems C08_ids / _own_reply / _own_request / _complete_message_filed / _incomplete_kept / _late_reply_harmless / _no_panic over the "
@@ -246,7 +246,7 @@ PROPS = {
     },
     "C09": {
         "n": {"quick": 200, "thorough": 5000},
-        "cone": ["Bytes", "BytesLemmas", "Regex", "Generated", "Netconf", "NetconfLemmas", "NcSession", "NcSessionLemmas", "DecideLang", "GeneratedSkel", "Decide", "DecideLoops", "NetconfSrc"],
+        "cone": ["Bytes", "BytesLemmas", "Regex", "Generated", "Netconf", "NetconfLemmas", "NcSession", "NcSessionLemmas", "DecideLang", "GeneratedSkel", "DecideLemmas", "DecideDV", "DecideLemmas", "CapabilitySrc", "Channel", "PlatformTypes"],
         "rx": True,
         "rule": NC_RULE + " The 4 x 3 table {base:1.0, base:1.1 advertised} x {preferred none/1.0/1.1} exhaustively first, then random extra capabilities "
                 "(incl. near-miss URNs), nc: prefix, layouts, session-ids up to 2^64-1, missing / truncated hello; non-trivial = every case.",
@@ -258,7 +258,7 @@ PROPS = {
     },
     "C14": {
         "n": {"quick": 60, "thorough": 1500},
-        "cone": ["Bytes", "BytesLemmas", "Generated", "SshArgs", "SshArgsLemmas", "DecideLang", "GeneratedSkel", "Decide"],
+        "cone": ["Bytes", "BytesLemmas", "Generated", "SshArgs", "SshArgsLemmas", "DecideLang", "GeneratedSkel", "DecideStd"],
         "rule": "exhaustive table {system, standard, system with real OpenSSH} x {strict (default), not strict} x {known-hosts has the key / another key / "
                 "empty / not given} x {password, key, both}, then random ports/users/extra args/config file/netconf; system transport through a stand-in "
                 "ssh binary that records argv, standard transport against an in-process x/crypto/ssh server with a fresh host key (and a second server "
@@ -292,7 +292,7 @@ PROPS = {
     "C17": {
         "n": {"quick": 1, "thorough": 1},
         "exhaustive": True,
-        "cone": ["Bytes", "Regex", "Generated", "Channel", "Network", "NetworkAbs", "NetworkLemmas", "Platform", "PlatformLemmas", "Replay", "NetworkTwins", "PlatformNav", "PlatformMerge", "RegexLemmas", "PlatformLang"],
+        "cone": ["Bytes", "Regex", "Generated", "Channel", "Network", "NetworkAbs", "NetworkLemmas", "Platform", "PlatformLemmas", "Replay", "NetworkTwins", "PlatformNav", "PlatformMerge", "RegexLemmas", "PlatformLang", "BytesLemmas", "PlatformTypes"],
         "rx": True,
         "rule": "exhaustive: every advertised platform name and every embedded definition file (documentation example excluded) is loaded with "
                 "platform.NewPlatform / NewPlatformVariant; for network definitions the driver runs against a device built from the definition "
@@ -309,7 +309,7 @@ PROPS = {
     "C18": {
         "pf": True,
         "n": {"quick": 250, "thorough": 6000},
-        "cone": ["Bytes", "Regex", "Generated", "Channel", "ChanTrace", "ChanTraceLemmas", "Replay", "DecideLang", "GeneratedSkel", "Decide", "DecideLoops", "CallbackSrc"],
+        "cone": ["Bytes", "Regex", "Generated", "Channel", "ChanTrace", "ChanTraceLemmas", "Replay", "DecideLang", "GeneratedSkel", "DecideLemmas", "DecideCB", "DecideLemmas", "CallbackSrc", "BytesLemmas", "Network", "PlatformTypes", "Session", "SessionLemmas"],
         "rx": True,
         "rule": "generic.Driver.SendWithCallbacks over the simulated transport and a scripted dialogue device: callback lists (contains / not-contains / "
                 "regex / case sensitivity / once / complete / next-timeout / answers written by the callback), dialogues whose texts make several triggers "
@@ -324,7 +324,7 @@ PROPS = {
     "C10": {
         "pf": True,
         "n": {"quick": 240, "thorough": 8000},
-        "cone": ["Bytes", "Regex", "Generated", "Channel", "ChanTrace", "ChanTraceLemmas", "Replay", "GeneratedSkel", "OpenSkel"],
+        "cone": ["Bytes", "Regex", "Generated", "Channel", "ChanTrace", "ChanTraceLemmas", "Replay", "GeneratedSkel", "OpenSkel", "BytesLemmas", "Network", "PlatformTypes", "Session", "SessionLemmas"],
         "rx": True,
         "rule": "generic.Driver.Open over a simulated transport that requests in-channel ssh / telnet login, against a scripted login device: "
                 "banners, prompt spellings accepted by the patterns, 0-3 rejections, passphrase prompts, ssh client failure messages, silence; "
@@ -344,7 +344,7 @@ PROPS = {
     "C11": {
         "pf": True,
         "n": {"quick": 240, "thorough": 8000},
-        "cone": ["Bytes", "Regex", "Generated", "Channel", "Network", "ChanTrace", "ChanTraceLemmas", "Replay"],
+        "cone": ["Bytes", "Regex", "Generated", "Channel", "Network", "ChanTrace", "ChanTraceLemmas", "Replay", "BytesLemmas", "PlatformTypes", "Session", "SessionLemmas"],
         "rx": True,
         "rule": "the login dialogues of C10 and privilege escalations (device asks / grants without asking / refuses) run with a logger at "
                 "debug/info/critical and a channel log attached; secrets include format verbs, regex metacharacters, non-ASCII and the literal "
@@ -360,7 +360,7 @@ PROPS = {
     "C12": {
         "pf": True,
         "n": {"quick": 240, "thorough": 8000},
-        "cone": ["Bytes", "Regex", "Generated", "Channel", "Network", "ChanTrace", "ChanTraceLemmas", "InteractiveLemmas", "Replay", "DecideLang", "GeneratedSkel", "ChannelSrc", "DecideLoops", "InteractiveSrcDefs", "InteractiveSrc", "InteractiveSrcModel", "InteractiveTie"],
+        "cone": ["Bytes", "Regex", "Generated", "Channel", "Network", "ChanTrace", "ChanTraceLemmas", "InteractiveLemmas", "Replay", "DecideLang", "GeneratedSkel", "WindowSrc", "SendInputSrc", "DecideLemmas", "InteractiveSrcDefs", "InteractiveSrc", "InteractiveSrcModel", "InteractiveTie", "BytesLemmas", "PlatformTypes", "Session", "SessionLemmas"],
         "rx": True,
         "rule": "SendInteractive dialogues (1-5 events, visible/hidden, with/without expected response, completion patterns) against a scripted "
                 "device whose reactions become readable only after a delay (0 / 0.3 / 1.5 ms) so that typing ahead is observable (bytes delivered "
@@ -376,7 +376,7 @@ PROPS = {
     },
     "C13": {
         "n": {"quick": 400, "thorough": 20000},
-        "cone": ["Bytes", "Generic", "GenericLemmas", "DecideLang", "GeneratedSkel", "DecideLoops"],
+        "cone": ["Bytes", "Generic", "GenericLemmas", "DecideLang", "GeneratedSkel", "DecideLemmas", "GenericSrc"],
         "rule": "random command lists (1-10) with failure strings planted at none/first/middle/last/several outputs, "
                 "driver-level x operation-level failure lists, stop-on-failed on/off, SendCommands / SendCommand-each / "
                 "SendCommandsFromFile through generic.Driver over the simulated transport; non-trivial = some response "
